@@ -90,6 +90,14 @@ def gen_texts(ctx, rng):
                 if rng.random() < 0.3:
                     text += 'TRAILING UNTERMINATED'
                 out.append(('plain', text))
+    # 1b. carriage returns that are NOT line breaks after a terminator: CR (and CR LF) inside a value, CR as the segment
+    #     terminator with LF inside a value: a source opened by path must deliver them like an open stream does
+    for d, vals in ((('~', '*', ':'), ['FIRST\rSECOND', 'A\r\nB', '\rLEAD', 'TRAIL\r']), (('\r', '*', ':'), ['FIRST\nSECOND', 'A\n'])):
+        segs = [docgen.isa('%09d' % rng.randint(1, 999999), d, '00401')]
+        for v in vals:
+            segs.append(docgen.seg(d, 'NTE', 'ADD', v))
+            segs.append(docgen.seg(d, 'REF', '87', 'X'))
+        out.append(('plain', docgen.encode(segs, d, '')))
     # 2. buffer boundaries: terminator at every offset -2..+2 around k*B, k = 1..4
     d = ('~', '*', ':')
     ks = [1, 2, 3, 4] if thorough else [1, 2]
